@@ -59,7 +59,7 @@ def prec_stage(ctx, n):
     if exe is None:
         ctx.oblige("harness build (optree)", False, (log or "")[-1500:])
         return 0
-    cases, specs = [], []
+    cases, specs, texts = [], [], []
     for i in range(n):
         if i % 3 != 2:
             e = precgen.gen_tree(rng, rng.range(1, 6))
@@ -68,25 +68,44 @@ def prec_stage(ctx, n):
             ref = precgen.ref_parse(ts)
             if ref != want:      # the two specifications (printer and reference parser) must agree with each other first
                 ctx.oblige("reference parser reads back the printer", False, "%s: %s vs %s" % (precgen.text(ts), ref, want))
-            ctx.hist("prec_kinds", "printed-tree")
+            glued = i % 3 == 1
+            ctx.hist("prec_kinds", "printed-tree-no-blanks" if glued else "printed-tree")
+            texts.append(precgen.glued_text(ts, rng) if glued else precgen.text(ts))     # blanks only where C's maximal munch needs them
         else:
             ts = precgen.soup(rng)
             want = precgen.ref_parse(ts)
             ctx.hist("prec_kinds", "soup-" + want.split()[0])
+            texts.append(precgen.text(ts))
         cases.append(ts)
         specs.append(want)
     with ctx.timer("model"):
         mout = C.run_driver("prec", [precgen.model_line(ts) for ts in cases])
     with ctx.timer("impl"):
-        iout, _ = C.run_harness_resilient(exe, [], ["raw " + precgen.text(ts).encode().hex() for ts in cases], timeout=900)
+        iout, _ = C.run_harness_resilient(exe, [], ["raw " + tx.encode().hex() for tx in texts], timeout=900)
+    # known finding COLON_GLUED_TO_SIGN: a ':' written directly in front of '+' / '-' is not recognised (a loud parse error); the token model is above that layer
+    extra = 0
+    keep = []
+    for k, (tx, o, s) in enumerate(zip(texts, iout, specs)):
+        if re.search(r":[+-]", tx):
+            got = precgen.canon_impl(o)
+            ctx.count("evaluations", 1)
+            if got == s:
+                continue
+            if got == "error" and ctx.known_finding("COLON_GLUED_TO_SIGN", tx[:120]):
+                continue
+            extra += 1
+            if extra <= 3:
+                ctx.violation("input", {"mode": "optree", "case": tx, "expected_spec": s, "observed": o, "how_to_replay": "echo 'raw %s' | build/harness/optree/<bin>" % tx.encode().hex()})
+        else:
+            keep.append(k)
+    cases, specs, texts, mout, iout = ([x[k] for k in keep] for x in (cases, specs, texts, mout, iout))
     lines = ["model=%s\tspec=%s" % (precgen.canon_model(m), s) for m, s in zip(mout, specs)]
     sizes = {}
     for ts in cases:
         b = min(len(ts) // 10 * 10, 100)
         sizes[b] = sizes.get(b, 0) + 1
     ctx.cov["prec_token_counts"] = {("%d-%d" % (k, k + 9)): v for k, v in sorted(sizes.items())}
-    return C.compare_streams(ctx, "optree", [precgen.text(ts) for ts in cases], lines, iout, canon_impl=lambda o, line: precgen.canon_impl(o),
-                             bucket=lambda line: "prec")
+    return extra + C.compare_streams(ctx, "optree", texts, lines, iout, canon_impl=lambda o, line: precgen.canon_impl(o), bucket=lambda line: "prec")
 
 
 def run(ctx):
